@@ -1,2 +1,4 @@
 import FtModel.Basic
 import FtModel.Coiter
+import FtModel.Intersect
+import FtModel.Compute
